@@ -219,6 +219,37 @@ def run(R):
                     R.ok('C04.LOP.1', inst, site(cx, n.ast))
             R.paths_examined += len(nodes)
     R.minimum('C04.PRV.1', 3)
+    # ---------------------------------------------------------------- C04.ORD.2 still attached when finally called
+    R.ob('C04.ORD.2', 'a handler found by the lookup is called only if it is still the one attached at that prefix when the call is made: the call '
+                      'runs in a task after awaits (digest check, validator), so the entry is compared by identity with the table again right before it')
+    for qual, trie in DISPATCH[:2]:
+        fam = family(R, qual)
+        for cx in fam:
+            for (n, c) in calls_in_ctx(cx, attr='callback'):
+                inst = f'{cx.qual} :: {norm(c)[:60]} only while attached'
+                # identity tests `self.<trie>.get(<key>) is [not] <node>` in the function that makes the call
+                recv = c.func.value
+                idt = []
+                for t in cx.cfg.nodes:
+                    if t.kind == 'test' and isinstance(t.ast, ast.Compare) and len(t.ast.ops) == 1 and isinstance(t.ast.ops[0], (ast.Is, ast.IsNot)):
+                        sides = [t.ast.left, t.ast.comparators[0]]
+                        if any(ast.unparse(y) == ast.unparse(recv) for y in sides) and any(
+                                any(isinstance(z, ast.Attribute) and self_attr(z, trie) for z in ast.walk(y)) for y in sides):
+                            idt.append((t, isinstance(t.ast.ops[0], ast.Is)))
+                # every path to the call takes the "is the attached one" edge, and no await lies between that test and the call
+                guarded = bool(idt) and n.id not in cx.cfg.reachable(removed_edges={(t.id, lab) for (t, lab) in idt}, follow_exc=False)
+                if guarded:
+                    after = set()
+                    for (t, lab) in idt:
+                        after |= reach_from_succ(cx.cfg, t, lab, follow_exc=False)
+                    between = [m for m in cx.cfg.nodes if m.id in after and m.has_await() and cx.cfg.path_exists(m, n) and m is not n]
+                    guarded = not between
+                if guarded:
+                    R.ok('C04.ORD.2', inst, site(cx, c))
+                else:
+                    R.fail('C04.ORD.2', inst, cx.qual, c, 'the handler found before the awaits is called without checking that it is still attached: one that was detached while '
+                           'the Interest was being validated receives it all the same (repro notes/repro/e22.py)', site(cx, c))
+    R.minimum('C04.ORD.2', 2)
     R.minimum('C04.MPT.2', 3)
 
     # ---------------------------------------------------------------- C04.PRV.2
